@@ -1,7 +1,7 @@
 """C12 — parsing is total; diagnostics point into the input."""
 import glob, os, re
 from vlib import peg
-from vlib.cfg import Cfg, DefUse, Slice
+from vlib.cfg import Cfg, DefUse, Slice, ref_chain
 from vlib.census import panic_sites, reachable_bodies
 from vlib.facts import AnchorMissing
 
@@ -85,8 +85,8 @@ def r1(cx, g):
 
 
 def r2(cx):
-    cl = cx.mir.one("varlink_parser", "<IDL<'a> as std::convert::TryFrom<&'a str>>::try_from::{closure#0}")
-    tf = cx.mir.one("varlink_parser", "<IDL<'a> as std::convert::TryFrom<&'a str>>::try_from")
+    from .roles import parse_error_mapper
+    cl, tf = parse_error_mapper(cx)
     cx.saw(cl); cx.saw(tf)
     du = DefUse(cl); sl = Slice(cl, du)
     unwraps = [t for t in cl.calls("=unwrap", "=expect")]
@@ -126,12 +126,17 @@ def r2(cx):
         cx.check(not why, "C12.R2", "try_from:line-lookup#%d" % i, "%s %s" % (t.sp, cl.path), "; ".join(why), note_ok="value.split('\\n').nth(location.line - 1)")
     # column passed through
     aggs = [s for s in cl.stmts() if s.kind == "assign" and s.rv == "agg" and isinstance(s.agg, dict) and s.agg.get("variant") == "Parse"]
-    okc = len(aggs) == 1 and any(k == "arg" for k, _ in sl.origins(aggs[0].ops[1])) and not any(k == "bin" for k, _ in sl.origins(aggs[0].ops[1]))
+    def from_parser(orig):
+        return any(k == "arg" for k, _ in orig) or any(k == "call" and "ParseInterface" in (o.callee.path + o.callee.resolved) for k, o in orig)
+    okc = len(aggs) == 1 and from_parser(sl.origins(aggs[0].ops[1])) and not any(k == "bin" for k, _ in sl.origins(aggs[0].ops[1]))
     col_field = False
     if aggs:
         for l in [aggs[0].ops[1].place.l] if aggs[0].ops[1].place is not None else []:
-            for k, d in du.defs.get(l, []):
-                if k == "stmt" and d.ops and d.ops[0].place is not None and "column" in d.ops[0].place.fields(): col_field = True
+            for l2 in ref_chain(du, l):
+                for k, d in du.value_defs(l2):
+                    if k == "stmt" and d.kind == "assign":
+                        for q in [x.place for x in d.ops if x.place is not None] + ([d.rplace] if d.rplace is not None else []):
+                            if "column" in q.fields(): col_field = True
     cx.check(okc and col_field, "C12.R2", "try_from:column-unchanged", cl.sp, "Error::Parse.column is not location.column as reported by the parser", note_ok="column = location.column")
     # the closure is applied to the same string that is parsed
     pcalls = [t for t in tf.calls("=ParseInterface")]
